@@ -6,13 +6,13 @@ after every step.  ``Harness.apply(step)`` returns the list of oracle failures o
 Failure clauses (first component = property the clause belongs to):
 
   C01.outcome C01.tree C01.tmpdir C01.crash
-  C02.exc_identity C02.file_restore C02.leftover_file C02.leftover_dir C02.dir_missing C02.tmpdir
+  C02.exc_identity C02.file_restore C02.leftover_file C02.leftover_dir C02.dir_missing C02.tmpdir C02.twin
   C03.foreign_file C03.dir_removed
   C04.answer C04.consistency C04.walk_order
-  C05.unjustified C05.rewrite
+  C05.unjustified C05.unchanged_rebuild C05.rewrite
   C08.multi_invocation
   C10.contract
-  C12.tree C12.noop C12.tmpdir
+  C12.tree C12.noop C12.tmpdir C12.after_clean
 """
 import collections
 import json
@@ -60,6 +60,10 @@ class Harness:
         self.last = {}          # info about the last build (for generators / classification)
         self.last_committed = None
         self.mutated_since_commit = False
+        self.ever_outputs = set()
+        self.after_clean = False
+        self.commits = 0
+        self.created_sets = []
 
     def close(self):
         self.sb.close()
@@ -91,9 +95,16 @@ class Harness:
         try:
             if op == 'build':
                 fails = self.build(step[1], step[2] if len(step) > 2 else None,
-                                   step[3] if len(step) > 3 else None)
+                                   step[3] if len(step) > 3 else None,
+                                   step[4] if len(step) > 4 else None)
             elif op == 'clean':
                 fails = self.clean()
+            elif op == 'save':
+                self._save_state()
+                fails = []
+            elif op == 'restore':
+                self._restore_state()
+                fails = []
             else:
                 changed = self.ext(step)
                 if changed:
@@ -211,9 +222,31 @@ class Harness:
     def _holds_cache(self, p):
         return self.cache.startswith(p + '/')
 
+    # ---- save / restore (crash-point and fault enumeration) ---------------------------------------
+    def _save_state(self):
+        self._saved = {'fs': self.sb.save(), 'prev': self.prev, 'step': self.step, 'clock': self.sb.clock,
+                       'last_committed': self.last_committed, 'last': dict(self.last),
+                       'mutated': self.mutated_since_commit}
+        self._twin = None
+        self._want_twin = True
+
+    def _restore_state(self):
+        sv = self._saved
+        self.sb.restore(sv['fs'])
+        self.prev = sv['prev']
+        self.step = sv['step']
+        self.sb.clock = sv['clock']
+        self.last_committed = sv['last_committed']
+        self.last = dict(sv['last'])
+        self.mutated_since_commit = sv['mutated']
+
     # ---- build ---------------------------------------------------------------------------------------
-    def build(self, versions, fail_at=None, crash_at=None):
-        self.step += 1
+    def build(self, versions, fail_at=None, crash_at=None, mode=None):
+        if crash_at is None:
+            self.step += 1
+            ctx_step = self.step
+        else:
+            ctx_step = 100000 + self.step * 1000 + crash_at      # unique mtimes, consumes no step number
         FileBuilder = FB()
         prog = self.prog
         if fail_at is not None:
@@ -228,7 +261,7 @@ class Harness:
         fails = []
 
         # ---- model run (crash builds: the model only says "it raises")
-        mctx = dsl.Ctx('model', prog, versions, self.step, self.universe, self.masked)
+        mctx = dsl.Ctx('model', prog, versions, ctx_step, self.universe, self.masked)
         mb = ModelBuild(pre_model, self.prev, self.cache, versions, self.R)
         if crash_at is None:
             try:
@@ -239,7 +272,7 @@ class Harness:
             mret = ('exc', 'Crash')
 
         # ---- real run
-        rctx = dsl.Ctx('real', prog, versions, self.step, self.universe, self.masked, crash_at)
+        rctx = dsl.Ctx('real', prog, versions, ctx_step, self.universe, self.masked, crash_at)
         real_exc = None
         try:
             rret = ('ok', FileBuilder.build_versioned(self.cache, BUILD_NAME, versions, dsl.root_func(rctx)))
@@ -265,6 +298,14 @@ class Harness:
         self.last = {'committed': mret[0] == 'ok', 'has_cache': has_cache, 'hit': hit, 'partial': partial,
                      'nm': nm, 'nr': nr, 'mutated': self.mutated_since_commit, 'versions': versions}
 
+        # ---- a build without a cache file is a first build: every function the model calls is called
+        if not has_cache and crash_at is None and mret[0] == 'ok' and rret[0] == 'ok':
+            if sorted(l['inv'] for l in rctx.log) != sorted(l['inv'] for l in mctx.log):
+                fails.append(self._fail('C12.after_clean' if self.after_clean else 'C01.first_build',
+                                        'a build without a cache file did not call every function', info))
+        if crash_at is None:
+            self.after_clean = False
+
         # ---- C08: at most one invocation per key
         seen = collections.Counter(l['inv'] for l in rctx.log)
         for inv, n in seen.items():
@@ -283,6 +324,13 @@ class Harness:
             fails.append(self._fail('C04.walk_order', 'walk violates the top_down ordering constraint',
                                     {**info, 'path': self.relp(p), 'top_down': td}))
         fails.extend(self._check_consistency(rctx, info))
+        executed = {l['inv'] for l in rctx.log} | {'<root>'}
+        for inv, busy, stale in mctx.extra.get('probe_points', []):
+            if inv in executed:
+                st['c04_probes_executed'] += 1
+                if busy and stale:
+                    st['c04_probes_nontrivial'] += 1
+                    self.flags.add('c04_nontrivial')
 
         # ---- outcome
         view_ok = not any(f['clause'].startswith('C04') for f in fails)
@@ -335,12 +383,32 @@ class Harness:
                                    'outputs': set(mb.outputs), 'created': set(mb.created) | set(cd),
                                    'raised_records': sum(1 for r in mb.forest for n in r.walk() if n.raised)}
             self.mutated_since_commit = False
+            self.ever_outputs |= set(mb.outputs)
+            self.commits += 1
+            self.created_sets.append(frozenset(new_prev.created_dirs))
         elif not real_committed:
             fails.extend(self._check_rollback(pre, post, rctx, info))
             st['rollbacks'] += 1
             st['rollbacks_on_cache'] += has_cache
             if has_cache and nr > 0:
                 st['rollbacks_after_work_on_cache'] += 1
+        # ---- twin bookkeeping (C02c: the build after a failed build == the same build without it)
+        summary = {'outcome': _outcome_key(rret), 'tree': {k: v[:3] for k, v in post.items() if k != self.cache},
+                   'cache_present': self.cache in post, 'log': [(l['inv']) for l in rctx.log]}
+        if getattr(self, '_want_twin', False) and crash_at is None:
+            self._twin = summary
+            self._want_twin = False
+        elif mode == 'cmp_twin' and getattr(self, '_twin', None) is not None:
+            tw = self._twin
+            st['twin_compared'] += 1
+            if tw['outcome'] != summary['outcome']:
+                fails.append(self._fail('C02.twin', 'next build outcome differs from the twin without the failed build', info))
+            elif tw['log'] != summary['log']:
+                fails.append(self._fail('C02.twin', 'next build invokes different functions than the twin',
+                                        {**info, 'twin': [self.relp(x) for x in tw['log']], 'here': [self.relp(x) for x in summary['log']]}))
+            elif tw['tree'] != summary['tree'] or tw['cache_present'] != summary['cache_present']:
+                diff = [self.relp(k) for k in sorted(set(tw['tree']) | set(summary['tree'])) if tw['tree'].get(k) != summary['tree'].get(k)]
+                fails.append(self._fail('C02.twin', 'tree after the next build differs from the twin (incl. mtimes)', {**info, 'paths': diff[:6]}))
         return fails
 
     # ---- C04 ---------------------------------------------------------------------------------------------
@@ -489,6 +557,18 @@ class Harness:
                                         {**info, 'path': self.relp(p)}))
                 break
         self.stats['c03_foreign_files_checked'] += nforeign
+        removed_any = any(p not in post or post[p][0] != v[0] for p, v in pre.items())
+        if removed_any:
+            interesting = False
+            for p, v in pre.items():
+                if p in managed or p in prev.created_dirs or p == self.R:
+                    continue
+                if p in self.ever_outputs or any(a in prev.created_dirs for a in _ancestors(p, self.R)):
+                    interesting = True
+                    break
+            if interesting:
+                self.stats['c03_nontrivial_calls'] += 1
+                self.flags.add('c03_nontrivial')
         owned_dirs = set(prev.created_dirs)
         owned_files = set(prev.outputs) | {self.cache}
         for p, v in pre.items():
@@ -593,6 +673,13 @@ class Harness:
                 if not n.setup_failed:
                     inv = 'F:' + n.path if n.kind == 'file' else 'S:%s:%s' % (n.fname, _ct([n.args, n.kwargs]))
                     cinv.setdefault(inv, n)
+        strict = (not self.mutated_since_commit and not getattr(prev, 'overwrote_foreign', False)
+                  and canon(dict(prev.versions)) == canon(dict(versions)))
+        if strict:
+            self.stats['c05_unchanged_rebuilds'] += 1
+            if any(n.raised for r in prev.forest for n in r.walk()):
+                self.stats['c05_unchanged_rebuilds_with_raised_record'] += 1
+                self.flags.add('c05_unchanged_with_raised')
         invoked_paths = set()
         for l in rctx.log:
             if l['kind'] == 'F':
@@ -610,8 +697,13 @@ class Harness:
                                         {**info, 'key': _relkey(self, cur.key), 'prev': _reljson(self, p.to_json()),
                                          'cur': _reljson(self, cur.to_json())}))
                 return fails
-            if j not in ('no-record',):
+            if j not in ('no-record', 'record-raised'):
                 self.flags.add('c05_refutable')
+                self.stats['c05_refutable_invocations'] += 1
+            if strict and not (j in ('record-raised', 'nested-setup-failed') or j.startswith('undecidable')):
+                fails.append(self._fail('C05.unchanged_rebuild', 'unchanged rebuild re-executes a call that did not raise last time (%s)' % j.split(':')[0],
+                                        {**info, 'key': _relkey(self, cur.key), 'justification': j}))
+                return fails
         # outputs whose function was not invoked keep inode and mtime
         for p in mb.outputs:
             if p in invoked_paths:
@@ -677,8 +769,13 @@ class Harness:
             fails.append(self._fail('C12.tmpdir', 'temporary directory left after clean', info))
         self.last = {'clean': True, 'had_cache': had_cache}
         if had_cache and pre[self.cache][0] == 'f':
+            if self.commits >= 2 and len(set(self.created_sets[-2:])) > 1:
+                self.flags.add('c12_nontrivial')
+                self.stats['c12_clean_after_created_dirs_changed'] += 1
             self.prev = Prev()
             self.last_committed = None
+            self.after_clean = True
+            self.mutated_since_commit = True
         return fails
 
 
@@ -739,6 +836,15 @@ def justification(cur, prev_idx, prev_versions, versions, intact, masked, exists
 # --------------------------------------------------------------------------------------------------
 # helpers
 # --------------------------------------------------------------------------------------------------
+
+def _ancestors(p, root):
+    out = []
+    d = os.path.dirname(p)
+    while len(d) > len(root):
+        out.append(d)
+        d = os.path.dirname(d)
+    return out
+
 
 def _dflt(o):
     if isinstance(o, bytes):
